@@ -757,22 +757,17 @@ def c15(ctx):
                 {'output': head[-6000:], 'rerun': 'python3 bin/tdiag.py --tier %s --seed %d' % (ctx.tier, ctx.seed)})
     elif p.returncode != 0:
         raise RuntimeError('tdiag failed: ' + (p.stderr or out)[-1500:])
-    if (counts.get('pegtext_not_reported') or counts.get('pegtext') or 0) or 'pegtext' in json.dumps(summary.get('examples', {})):
-        ctx.add('spec', 'T-diag/pegtext', 'an undefined reference named PegText is not reported', {'pegtext_exception': True, 'example': (summary.get('examples') or {}).get('pegtext')})
+    # (F-C15-1, fixed: an unreported reference to the undefined name PegText is no longer counted as a
+    #  tolerated deviation by bin/tdiag.py — it is a 'SPEC undefined' mismatch like any other name)
     ctx.coverage.update({
         'evaluations': n or 1, 'distinct_nontrivial': int(counts.get('kind_leftrec', 0)) + int(counts.get('kind_undefined', 0)) + int(counts.get('kind_unused', 0)) + int(counts.get('kind_dup', 0)),
         'exhaustive': True,
         'rule': 'ill-formed and borderline grammars: families (direct/indirect/nullable-prefix left recursion, recursion under ? * + & ! <>, later alternatives, guarded recursion that must stay silent, '
-                'unreachable rules and cycles, names used only from unreachable rules, undefined names, duplicates, empty bodies, actions and captures), seeded random ones, and the exhaustive enumeration of '
-                'small two-rule grammars; per grammar the ordered warning lines, -strict failure and duplicate error of the real generator are compared with the Lean model, and the warned name sets with an '
+                'unreachable rules and cycles, names used only from unreachable rules, undefined names — among them the name PegText, with and without captures elsewhere in the grammar —, duplicates, empty bodies, '
+                'actions and captures), seeded random ones, and the exhaustive enumeration of small two-rule grammars (once more with PegText as a leaf); per grammar the ordered warning lines, -strict failure and duplicate error of the real generator are compared with the Lean model, and the warned name sets with an '
                 'independent evaluation of Reachable / Undefined / LeftRec; non-trivial = grammars with at least one diagnostic',
         'samples': [summary.get('examples')], 'input_distribution': counts,
     })
-
-
-@matcher('F-C15-1')
-def _m_c15_1(d, k):
-    return d['tie'] == 'T-diag/pegtext' and (d.get('replay') or {}).get('pegtext_exception') is True
 
 
 def c10(ctx):
